@@ -1,5 +1,5 @@
 """./check <Cxx> [--tier quick|thorough] [--replay file]"""
-import sys, os, json, time, importlib, argparse, traceback
+import os, sys, json, time, importlib, argparse, traceback
 sys.path.insert(0, os.path.dirname(os.path.abspath(__file__)))
 import core
 
@@ -44,7 +44,32 @@ def main():
 		drv = core.Driver()
 		core.limit_memory()
 		core.install_watchdog()
-		mod.run(rep, drv)
+		try:
+			mod.run(rep, drv)
+		except core.Infra:
+			raise
+		except Exception as e:
+			# An exception that escapes a stream. If it was raised INSIDE the code under check (frames of the repository below the last harness
+			# frame), the real code failed on the case being processed: a verdict about the code, with that case as the replay. Driver / lake /
+			# tool failures (core.Infra) stay exit 2.
+			tb = traceback.extract_tb(e.__traceback__)
+			repo_src = os.path.join(core.REPO, 'src')
+			hdir = os.path.dirname(os.path.abspath(__file__))
+			last_h = max([i for i, f in enumerate(tb) if f.filename.startswith(hdir)] or [-1])
+			inner = [f for f in tb[last_h + 1:] if f.filename.startswith(repo_src)]          # frames of the repository below the last harness frame
+			stream, case = getattr(rep, 'last_case', ('?', None))
+			if inner:
+				rep.diff(stream, 'the code under check raised %s outside any guarded call while this case was processed: %s (%s:%d)' % (
+					core.err_enum(e), str(e)[:160], os.path.relpath(inner[-1].filename, core.REPO), inner[-1].lineno), case,
+					py={'traceback': traceback.format_exc()[-1500:]}, oracle=True, theorem=None)
+			else:
+				# raised in the harness itself while it evaluated what the code returned for this case (never seen on the unchanged tree, several
+				# seeds): the property can no longer be evaluated there - reported as a broken correspondence without a concrete failing input
+				if case is None:
+					raise
+				rep.diff(stream, 'the check could not evaluate the property on what the code under check returned for this case: %s: %s (%s:%d)' % (
+					type(e).__name__, str(e)[:160], os.path.basename(tb[-1].filename), tb[-1].lineno), case,
+					py={'traceback': traceback.format_exc()[-1500:]}, oracle=None, theorem='correspondence of stream ' + stream)
 		drv.close()
 		ob['model_calls'] = drv.calls
 		tb = GLOBAL_TB + list(getattr(mod, 'TRUSTED', []))
